@@ -30,6 +30,14 @@ CHECKS = {
         design="§7 C13",
         note="Hypotheses of the algebraic theorems: abstract field (is_field K), h(id)+alpha <> 0, batch divisor <> 1 for stale handles. Claims given to issuance are conformant (C15). Persist/restore through JSON and CBOR.",
         technique="Coq theorems (invariant + refinement by induction over operation lists; field tactic for the accumulator) + differential correspondence of issuer histories"),
+    "C14": dict(
+        text="Theorems for batches of every size and order over an abstract field: the telescoping identities for v_A and v_D, the coefficient identity (y+alpha)*Omega(y) = V*(P_A*d_D(y)/P_D - d_A(y)), hence batch update of a membership witness verifies against the new accumulator and equals the from-scratch witness whenever y is not deleted; "
+             "multi-batch update equals one batch update per epoch for every list of batches (induction), hence is correct over whole published histories and independent of the grouping into calls; deleted elements leave the witness unchanged, which cannot verify against a changed value; "
+             "single-step update correct for one addition / one deletion and refuted for two additions (known finding); non-membership creation and batch update verify with d scaled by d_A(y)/d_D(y). "
+             "Correspondence: random histories (1..4 epochs quick, 1..6 thorough; 0..5 additions/deletions; y outside/added/deleted; random grouping), every implementation point compared with G*(model exponent).",
+        design="§7 C14",
+        note="Polynomial arithmetic of the code (+=, -=, *=[j,-1], scalar *=, evaluate) is modelled literally on coefficient lists, G1 points by discrete logs. Hypotheses: d+alpha <> 0 for deleted elements (code panics otherwise), d_D(y) <> 0, y+alpha <> 0 for uniqueness. Model executed on Bignums BigZ mod r.",
+        technique="Coq theorems (field/ring tactics + list induction over batches and histories) + differential correspondence with exact point comparison"),
 }
 
 PLANNED = {
